@@ -383,3 +383,10 @@ B('poly-mul-short-long', ('gfpx', "        if len(a) > len(b):\n            a, b
 M('poly-mul-short-long-wrong-test', ['C23'], ('gfpx', "        if len(a) > len(b):\n            a, b = b, a\n        # len(a) <= len(b)\n        if not a:\n            return []\n\n        c = [0] * (len(a) + len(b) - 1)\n        for i, a_i in enumerate(a):\n            if a_i:\n                for j, b_j in enumerate(b):",
                                   "        short, long = (b, a) if len(a) > len(b) else (a, b)\n        if not long:\n            return []\n\n        c = [0] * (len(short) + len(long) - 1)\n        for i, a_i in enumerate(short):\n            if a_i:\n                for j, b_j in enumerate(long):"),
   why='same ordering, zero test on the longer operand (OP9)')
+M('normalize-identity-not-selected', ['C28'], ('secgroups', "            c = zis0.if_else([field(0), field(1)], [x, y])\n            c = runtime.scalar_mul(z_inv, c)\n", "            c = runtime.scalar_mul(z_inv, [x, y])\n"),
+  why='a computed identity (0 : y : 0) is normalised to (0, y, 0) instead of (0, 1, 0): equality with the identity fails (ID1)')
+B('normalize-identity-per-coordinate', ('secgroups', "            c = zis0.if_else([field(0), field(1)], [x, y])\n            c = runtime.scalar_mul(z_inv, c)\n            return cls(c + [1 - zis0])",
+                                        "            x0 = zis0.if_else(field(0), x)\n            y0 = zis0.if_else(field(1), y)\n            xy = runtime.scalar_mul(z_inv, [x0, y0])\n            one_or_zero = 1 - zis0\n            return cls(xy + [one_or_zero])"),
+  why='selection per coordinate with temporaries (ID1 must stay silent)')
+B('normalize-identity-arith-mask', ('secgroups', "            c = zis0.if_else([field(0), field(1)], [x, y])\n", "            nz = 1 - zis0\n            c = [x * nz, y * nz + zis0]\n"),
+  why='arithmetic selection instead of if_else: same values (ID1 must stay silent)')
